@@ -6,6 +6,7 @@ import (
 	"bytes"
 	"fmt"
 	"math/big"
+	"os"
 	"strconv"
 
 	"github.com/ontio/ontology/common"
@@ -26,6 +27,20 @@ func witnesses(w *world, in *blockInput) {
 	switch in.Witness {
 	case "deploy-destroyed":
 		w.deployDestroyed()
+	case "tx":
+		if os.Getenv("C05_CHILD") == "" && in.Label != "generated" {
+			// corpus probe: first in a child with a time limit, then (if it returned) here
+			price, _ := strconv.ParseUint(in.Price, 10, 64)
+			limit, _ := strconv.ParseUint(in.Limit, 10, 64)
+			bal, _ := strconv.ParseUint(in.Balance, 10, 64)
+			mtx := w.k.InvokeTx(hx.UnHex(in.Code), price, limit)
+			mtx.Payer = w.users[len(w.users)-1].Address
+			tx, _ := mtx.IntoImmutable()
+			if !w.guard(tx, bal, in, in.Label) {
+				return
+			}
+		}
+		w.txProbe(in)
 	case "gasprice", "gasprice-2^59":
 		p, err := strconv.ParseUint(in.Price, 10, 64)
 		if err != nil {
